@@ -6,6 +6,7 @@
 From Coq Require Import ZArith NArith Bool List Lia Permutation.
 From PcoreV Require Import Model.Base Model.Coll.
 Import ListNotations.
+Local Open Scope nat_scope.
 
 (* ---------------------------------------------------------------------------------------------- *)
 (* "no two equal keys": no key is equal (keq = veq, Model/Coll.v) to a later one *)
@@ -80,10 +81,10 @@ Inductive sublist {A} : list A -> list A -> Prop :=
 | sl_keep x l1 l2 : sublist l1 l2 -> sublist (x :: l1) (x :: l2).
 
 Lemma sublist_refl {A} (l : list A) : sublist l l.
-Proof. induction l; constructor; auto. Qed.
+Proof. induction l; [apply sl_nil|apply sl_keep; auto]. Qed.
 
 Lemma sublist_nil {A} (l : list A) : sublist [] l.
-Proof. induction l; constructor; auto. Qed.
+Proof. induction l; [apply sl_nil|apply sl_skip; auto]. Qed.
 
 Lemma sublist_In {A} (l1 l2 : list A) x : sublist l1 l2 -> In x l1 -> In x l2.
 Proof.
@@ -95,39 +96,40 @@ Lemma sublist_Forall {A} (P : A -> Prop) l1 l2 : sublist l1 l2 -> Forall P l2 ->
 Proof. intros H F. rewrite Forall_forall in *. intros x Hx. apply F. eapply sublist_In; eauto. Qed.
 
 Lemma sublist_filter {A} (f : A -> bool) l : sublist (filter f l) l.
-Proof. induction l as [|a l IH]; cbn [filter]; [constructor|]. destruct (f a); constructor; auto. Qed.
+Proof. induction l as [|a l IH]; cbn [filter]; [apply sl_nil|]. destruct (f a); [apply sl_keep|apply sl_skip]; auto. Qed.
 
 Lemma sublist_firstn {A} n (l : list A) : sublist (firstn n l) l.
 Proof.
-  revert n; induction l as [|a l IH]; intros [|n]; cbn [firstn]; try constructor; auto using sublist_nil.
+  revert n; induction l as [|a l IH]; intros [|n]; cbn [firstn]; try apply sl_nil; [apply sublist_nil|apply sl_keep; auto].
 Qed.
 
 Lemma sublist_skipn {A} n (l : list A) : sublist (skipn n l) l.
 Proof.
-  revert n; induction l as [|a l IH]; intros [|n]; cbn [skipn]; try constructor; auto using sublist_refl.
+  revert n; induction l as [|a l IH]; intros [|n]; cbn [skipn]; try apply sl_nil; [apply sublist_refl|apply sl_skip; auto].
 Qed.
 
 Lemma sublist_trans {A} (l1 l2 l3 : list A) : sublist l1 l2 -> sublist l2 l3 -> sublist l1 l3.
 Proof.
   intros H12 H23; revert l1 H12; induction H23 as [|x l2 l3 H IH|x l2 l3 H IH]; intros l1 H12.
   - assumption.
-  - constructor; auto.
-  - inversion H12; subst; constructor; auto.
+  - apply sl_skip; auto.
+  - inversion H12; subst; [apply sl_skip|apply sl_keep]; auto.
 Qed.
 
 Lemma sublist_remove_nth {A} i (l : list A) : sublist (remove_nth i l) l.
 Proof.
-  revert i; induction l as [|a l IH]; intros [|i]; cbn [remove_nth]; try constructor; auto using sublist_refl.
+  revert i; induction l as [|a l IH]; intros [|i]; cbn [remove_nth]; try apply sl_nil;
+    [apply sl_skip, sublist_refl|apply sl_keep; auto].
 Qed.
 
 Lemma sublist_remove_positions {A} d i (l : list A) : sublist (remove_positions d i l) l.
 Proof.
-  revert i; induction l as [|a l IH]; intros i; cbn [remove_positions]; [constructor|].
-  destruct (existsb (Nat.eqb i) d); constructor; auto.
+  revert i; induction l as [|a l IH]; intros i; cbn [remove_positions]; [apply sl_nil|].
+  destruct (existsb (Nat.eqb i) d); [apply sl_skip|apply sl_keep]; auto.
 Qed.
 
 Lemma sublist_map {A B} (f : A -> B) l1 l2 : sublist l1 l2 -> sublist (map f l1) (map f l2).
-Proof. induction 1; cbn [map]; constructor; auto. Qed.
+Proof. induction 1; cbn [map]; [apply sl_nil|apply sl_skip|apply sl_keep]; auto. Qed.
 
 (* ---------------------------------------------------------------------------------------------- *)
 Section Equiv.
@@ -215,7 +217,7 @@ Section Equiv.
       intros Ho Hk Hn Hm. apply oks_cons in Ho as [He Ht]. apply nodupG_cons in Hn as [Hn _].
       apply existsb_false. intros e' Hin. unfold keq.
       destruct (veq (key e') k) eqn:E'; [|reflexivity].
-      rewrite (ok_join (key e) (key e') k) in Hn; eauto using oks_In. discriminate (Hn e' Hin).
+      specialize (Hn e' Hin). rewrite (ok_join (key e) (key e') k) in Hn by eauto using oks_In. discriminate.
     Qed.
 
     Lemma uniq_match es k e1 e2 : oks es -> ok k -> nodupG es = true ->
@@ -269,12 +271,11 @@ Section Equiv.
       = find (fun e => keq (key e) k) es.
     Proof.
       intros Ho Hk. induction es as [|e t IH]; intros Hn; cbn [hfindG find]; [reflexivity|].
-      unfold keq at 2. destruct (veq (key e) k) eqn:Em.
+      unfold keq in *. destruct (veq (key e) k) eqn:Em.
       - apply (head_unique e t k Ho Hk Hn) in Em as Hu. apply hfind_none in Hu. rewrite Hu.
-        unfold keq. rewrite Em. reflexivity.
+        reflexivity.
       - apply oks_cons in Ho as [_ Ho]. apply nodupG_cons in Hn as [_ Hn]. specialize (IH Ho Hn).
-        destruct (hfindG key t k) as [i|]; cbn [nth_error]; [exact IH|].
-        unfold keq. rewrite Em. exact IH.
+        destruct (hfindG key t k) as [i|]; cbn [nth_error]; exact IH.
     Qed.
 
     Lemma find_iff es k e : oks es -> ok k -> nodupG es = true ->
@@ -292,10 +293,10 @@ Section Equiv.
     Proof.
       intros Ho Hk. unfold hash_deleteG.
       induction es as [|e t IH]; intros Hn; cbn [hfindG filter]; [reflexivity|].
-      unfold keq at 2 3. destruct (veq (key e) k) eqn:Em; cbn [negb].
+      unfold keq in *. destruct (veq (key e) k) eqn:Em; cbn [negb].
       - apply (head_unique e t k Ho Hk Hn) in Em as Hu. pose proof Hu as Hu'. apply hfind_none in Hu. rewrite Hu.
         cbn [remove_nth]. symmetry. apply filter_all. intros x Hx.
-        rewrite existsb_false in Hu'. now rewrite Hu'.
+        rewrite existsb_false in Hu'. unfold keq in Hu'. now rewrite Hu'.
       - apply oks_cons in Ho as [_ Ho]. apply nodupG_cons in Hn as [_ Hn]. specialize (IH Ho Hn).
         destruct (hfindG key t k) as [i|]; cbn [remove_nth]; now rewrite <- IH.
     Qed.
@@ -343,12 +344,12 @@ Section Equiv.
       apply oks_cons in Ho as Ho'. destruct Ho' as [Hh Ht]. apply nodupG_cons in Hn as Hn'. destruct Hn' as [Hx Hn'].
       destruct i as [|i]; cbn [nth_error] in Hi; cbn [set_nth]; apply nodupG_cons.
       - inversion Hi; subst h. split; [|assumption]. intros e' He'.
-        destruct (veq (key e) (key e')) eqn:E; [|reflexivity].
-        rewrite (ok_trans (key e0) (key e) (key e')) in Hx; eauto using oks_In. discriminate (Hx e' He').
+        destruct (veq (key e) (key e')) eqn:Eq1; [|reflexivity].
+        specialize (Hx e' He'). rewrite (ok_trans (key e0) (key e) (key e')) in Hx by eauto using oks_In. discriminate.
       - split; [|apply IH; auto]. intros e' He'. apply set_nth_In in He' as [->|He']; [|auto].
         assert (He0 : In e0 t) by (eapply nth_error_In; eauto).
-        destruct (veq (key h) (key e)) eqn:E; [|reflexivity].
-        rewrite (ok_trans (key h) (key e) (key e0)) in Hx; eauto using oks_In. discriminate (Hx e0 He0).
+        destruct (veq (key h) (key e)) eqn:Eq1; [|reflexivity].
+        specialize (Hx e0 He0). rewrite (ok_trans (key h) (key e) (key e0)) in Hx by eauto using oks_In. discriminate.
     Qed.
 
     Lemma oks_set_nth es i e : oks es -> ok (key e) -> oks (set_nth i e es).
@@ -437,7 +438,7 @@ Section Equiv.
       intros Ho He. unfold upd_step.
       induction hv as [|h t IH]; intros Hn A HA.
       - destruct A; [reflexivity|discriminate].
-      - destruct A as [|a A']; [discriminate|]. cbn [hfindG upd1]. unfold keq at 1 2.
+      - destruct A as [|a A']; [discriminate|]. cbn [hfindG upd1]. unfold keq in *.
         destruct (veq (key h) (key e)) eqn:Em.
         + apply (head_unique h t (key e) Ho He Hn) in Em as Hu. apply hfind_none in Hu. now rewrite Hu.
         + apply oks_cons in Ho as [_ Ho]. apply nodupG_cons in Hn as [_ Hn].
@@ -472,21 +473,20 @@ Section Equiv.
       apply oks_cons in Ho as Ho'. destruct Ho' as [Hh Ht]. apply nodupG_cons in Hn as Hn'. destruct Hn' as [Hx Hnt].
       unfold keq at 1. destruct (veq (key h) (key e0)) eqn:Em; cbn [combine map].
       - f_equal.
-        + unfold pick; cbn [fst snd find]. unfold keq at 2. rewrite Em.
+        + unfold pick; cbn [fst snd find]. unfold keq. rewrite Em.
           (* no entry of oh has the key of h *)
-          destruct (find (fun e' => keq (key h) (key e')) oh) as [e'|] eqn:Ef; [|reflexivity].
-          apply find_some in Ef as [Hin Hm']. unfold keq in Hm'. apply nodupG_cons in Hno as [Hy _].
-          rewrite (ok_join (key e0) (key e') (key h)) in Hy; eauto using oks_In.
-          * discriminate (Hy e' Hin).
-          * apply ok_sym; eauto using oks_In.
+          destruct (find (fun e' => veq (key h) (key e')) oh) as [e'|] eqn:Ef; [|reflexivity].
+          apply find_some in Ef as [Hin Hm']. apply nodupG_cons in Hno as [Hy _].
+          specialize (Hy e' Hin). rewrite (ok_join (key e0) (key e') (key h)) in Hy by eauto using oks_In.
+          discriminate.
         + (* no other position has the key of e0 *)
           apply map_ext_in. intros [h' a'] Hin. apply in_combine_l in Hin.
-          unfold pick; cbn [fst snd find]. unfold keq at 2.
+          unfold pick; cbn [fst snd find]. unfold keq.
           destruct (veq (key h') (key e0)) eqn:Em'; [|reflexivity].
-          rewrite (ok_join (key h) (key h') (key e0)) in Hx; eauto using oks_In. discriminate (Hx h' Hin).
+          specialize (Hx h' Hin). rewrite (ok_join (key h) (key h') (key e0)) in Hx by eauto using oks_In. discriminate.
       - f_equal.
-        + unfold pick; cbn [fst snd find]. unfold keq at 2. now rewrite Em.
-        + apply IH; auto. cbn in HA; lia.
+        + unfold pick; cbn [fst snd find]. unfold keq. now rewrite Em.
+        + apply IH; auto; cbn in HA; lia.
     Qed.
 
     Lemma fold_upd1_pick hv : oks hv -> nodupG hv = true ->
@@ -514,7 +514,7 @@ Section Equiv.
       merge_entriesG key hv oh = map (repl oh) hv ++ filter (is_new hv) oh.
     Proof.
       intros Ho Hoo Hn Hno. unfold merge_entriesG.
-      rewrite <- (app_nil_r hv) at 2. rewrite (merge_split hv oh hv [] eq_refl). cbn [app].
+      pose proof (merge_split hv oh hv [] eq_refl) as Hs. rewrite app_nil_r in Hs. cbn [app] in Hs. rewrite Hs.
       rewrite fold_upd_step_upd1, fold_upd1_pick, map_pick_self; auto.
     Qed.
 
@@ -535,10 +535,11 @@ Section Equiv.
       destruct (Hg h Hh) as [Hgh Hm]. split; [apply oks_cons; auto|]. apply nodupG_cons. split; [|assumption].
       intros e' He'. apply in_map_iff in He' as (x & <- & Hx'). pose proof (oks_In _ _ Ht Hx') as Hxo.
       destruct (Hg x Hxo) as [Hgx Hmx].
-      destruct (veq (key (g h)) (key (g x))) eqn:E; [|reflexivity].
-      rewrite (ok_trans (key h) (key (g h)) (key x)) in Hx; auto.
-      - discriminate (Hx x Hx').
-      - apply (ok_trans _ (key (g x))); auto.
+      destruct (veq (key (g h)) (key (g x))) eqn:Eq1; [|reflexivity].
+      specialize (Hx x Hx').
+      assert (Hc : veq (key h) (key x) = true).
+      { apply (ok_trans _ (key (g h))); auto. apply (ok_trans _ (key (g x))); auto. }
+      congruence.
     Qed.
 
     Lemma merge_spec_inv hv oh : oks hv -> oks oh -> nodupG hv = true -> nodupG oh = true ->
@@ -553,8 +554,8 @@ Section Equiv.
       intros a b Ha Hb. apply in_map_iff in Ha as (h & <- & Hh). apply filter_In in Hb as [Hb Hnew].
       unfold is_new in Hnew. apply negb_true_iff in Hnew. rewrite existsb_false in Hnew. specialize (Hnew h Hh).
       unfold keq in Hnew. destruct (repl_key oh h (oks_In _ _ Ho Hh) Hoo) as [Hr Hm].
-      destruct (veq (key (repl oh h)) (key b)) eqn:E; [|reflexivity].
-      rewrite (ok_trans (key h) (key (repl oh h)) (key b)) in Hnew; eauto using oks_In.
+      destruct (veq (key (repl oh h)) (key b)) eqn:Eq1; [|reflexivity].
+      rewrite (ok_trans (key h) (key (repl oh h)) (key b)) in Hnew by eauto using oks_In. discriminate.
     Qed.
 
     (* ---- order-insensitive: a permutation of the entries keeps one entry per key (Sort) ---- *)
@@ -572,7 +573,7 @@ Section Equiv.
       - apply oks_cons in Ho as [Hx Ho]. cbn [nodupG] in *. apply andb_true_iff in Hn as [H1 H2].
         rewrite <- (existsb_perm _ _ _ HP), H1, IH; auto.
       - apply oks_cons in Ho as [Hy Ho]. apply oks_cons in Ho as [Hx Ho].
-        cbn [nodupG existsb] in *. unfold keq in *. rewrite (ok_comm x y) by assumption.
+        cbn [nodupG existsb] in *. unfold keq in *. rewrite (ok_comm (key x) (key y)) by assumption.
         destruct (veq (key y) (key x)); cbn [orb negb andb] in *; [discriminate|].
         apply andb_true_iff in Hn as [H1 Hn]. apply andb_true_iff in Hn as [H2 Hn]. now rewrite H1, H2, Hn.
       - apply IH2; auto. unfold oks in *. eapply Permutation_Forall; eauto.
@@ -593,7 +594,7 @@ Section Equiv.
   Lemma veq_list_sym la : forall lb, Forall ok la -> Forall ok lb -> veq_list la lb = true -> veq_list lb la = true.
   Proof.
     induction la as [|x la IH]; intros [|y lb] Ha Hb H; cbn [veq_list] in *; try discriminate; [reflexivity|].
-    inversion Ha; inversion Hb; subst. apply andb_true_iff in H as [H1 H2].
+    inversion Ha as [|? ? Hax Hal]; inversion Hb as [|? ? Hbx Hbl]; subst. apply andb_true_iff in H as [H1 H2].
     rewrite (ok_sym x y), IH; auto.
   Qed.
 
@@ -601,7 +602,7 @@ Section Equiv.
     veq_list la lb = true -> veq_list lb lc = true -> veq_list la lc = true.
   Proof.
     induction la as [|x la IH]; intros [|y lb] [|z lc] Ha Hb Hc H1 H2; cbn [veq_list] in *; try discriminate; [reflexivity|].
-    inversion Ha; inversion Hb; inversion Hc; subst.
+    inversion Ha as [|? ? Hax Hal]; inversion Hb as [|? ? Hbx Hbl]; inversion Hc as [|? ? Hcx Hcl]; subst.
     apply andb_true_iff in H1 as [H1 H1']. apply andb_true_iff in H2 as [H2 H2'].
     rewrite (ok_trans x y z), (IH lb lc); auto.
   Qed.
@@ -662,7 +663,7 @@ Section Equiv.
       { intros e He. destruct (Hsub e (or_intror He)) as (e2 & He2 & Hm). exists e2. split; [|exact Hm].
         apply in_app_or in He2 as [He2|[<-|He2]]; apply in_or_app; auto.
         (* e matches y, and so does x: x and e have equal keys *)
-        rewrite (ok_join (fst x) (fst e) (fst y)) in Hxn; eauto using oks_In. discriminate (Hxn e He). }
+        specialize (Hxn e He). rewrite (ok_join (fst x) (fst e) (fst y)) in Hxn by eauto using oks_In. discriminate. }
       assert (Hl' : length (eb1 ++ eb2) <= length ea).
       { rewrite app_length in *. cbn [length] in Hl. lia. }
       apply in_app_or in He' as [He'|[<-|He']].
